@@ -409,7 +409,7 @@ func init() {
 		TrustedBase: baseTrusted,
 		Rules:       []RuleRun{{"R20", R20}, {"R6", R6("visitors")}, {"R10", R10}},
 		LevelText:   "Structural necessary conditions: each documented rule must have live code at its mechanism anchor. Checked on the typed syntax tree and SSA, so a rule that silently lost its code (dead result, missing kind arm, swapped dispatch order) is reported although every fixture still passes.",
-		Technique:   "typed-AST rule coverage of the omitempty kind switch, dead-result query on SSA for folder-producing calls, SSA shape check of the member-name derivation on both sides, dominance order of dispatch anchors",
+		Technique:   "typed-AST rule coverage of the omitempty kind switch, dead-result query on SSA for folder-producing calls, SSA shape check of the member-name derivation on both sides, dominance order of dispatch anchors; omit-before-everything path rule on fold and unfold side; re-arm reset rule for ExpectObjVisitor; registry-key typing of inline folders via the grammar getter table",
 		DesignRef:   "DESIGN.md section 2 R20; section 3 C12",
 	})
 }
